@@ -64,6 +64,8 @@ type Cfg struct {
 	// state the raw store does not show, so these configurations are explored WITHOUT merging
 	// states, every history up to the stated length, observing after every step.
 	Cache bool `json:"cache,omitempty"`
+	// Link: how the registry announces the next page ("" one header, split, combined)
+	Link string `json:"link,omitempty"`
 	Part  int  `json:"part,omitempty"` // work split of a cache configuration by first operation
 	Parts int  `json:"parts,omitempty"`
 }
@@ -72,6 +74,9 @@ func (c Cfg) String() string {
 	s := fmt.Sprintf("%s feat=%s page=%d limit=%d", c.Kind, c.Feat, c.TagPage, c.Limit)
 	if c.Cache {
 		s += " cache=on"
+	}
+	if c.Link != "" {
+		s += " link=" + c.Link
 	}
 	return s
 }
@@ -219,6 +224,7 @@ type World struct {
 func features(cfg Cfg) modelreg.Features {
 	f := modelreg.Full()
 	f.TagPage = cfg.TagPage
+	f.LinkStyle = cfg.Link
 	switch cfg.Feat {
 	case "no-tag-delete":
 		f.TagDelete = false
@@ -695,6 +701,8 @@ func configs(thorough bool) []Cfg {
 		{Kind: "reg", Feat: "no-delete"},
 		{Kind: "reg", Feat: "full", TagPage: 1},
 		{Kind: "reg", Feat: "full", TagPage: 2},
+		{Kind: "reg", Feat: "full", TagPage: 1, Link: "split"},
+		{Kind: "reg", Feat: "full", TagPage: 2, Link: "combined"},
 		{Kind: "reg", Feat: "full", Limit: 1},
 		{Kind: "reg", Feat: "full", Limit: 2, TagPage: 1},
 		{Kind: "dir"},
